@@ -170,7 +170,52 @@ func lalWrite(v *proj.AVal) ([]byte, bool) {
 	default:
 		return nil, false
 	}
+	// lal itself encodes into the growing buffer of rtmp.MessagePacker (12 bytes reserved for the chunk header, the
+	// command name and transaction id in front): the value must come out of it as it comes out of a plain writer
+	if pb := lalWritePacker(v); !bytes.Equal(pb, buf.Bytes()) {
+		return append([]byte{0xEE}, pb...), true
+	}
 	return buf.Bytes(), true
+}
+
+func lalWritePacker(v *proj.AVal) (out []byte) {
+	defer func() {
+		if r := recover(); r != nil {
+			out = []byte("panic: " + fmt.Sprint(r))
+		}
+	}()
+	pb := rtmp.NewBuffer(256)
+	pb.ModWritePos(12)
+	rtmp.Amf0.WriteString(pb, "play")
+	rtmp.Amf0.WriteNumber(pb, 4)
+	rtmp.Amf0.WriteNull(pb)
+	pre := pb.Len()
+	switch v.K {
+	case "num":
+		rtmp.Amf0.WriteNumber(pb, proj.NumPool[v.Id])
+	case "bool":
+		rtmp.Amf0.WriteBoolean(pb, v.B)
+	case "str":
+		rtmp.Amf0.WriteString(pb, string(v.S.Bytes()))
+	case "null":
+		rtmp.Amf0.WriteNull(pb)
+	case "obj":
+		var opa rtmp.ObjectPairArray
+		for _, p := range v.Ps {
+			var val interface{}
+			switch p.V.K {
+			case "num":
+				val = proj.NumPool[p.V.Id]
+			case "bool":
+				val = p.V.B
+			case "str":
+				val = string(p.V.S.Bytes())
+			}
+			opa = append(opa, rtmp.ObjectPair{Key: string(p.Key.Bytes()), Value: val})
+		}
+		rtmp.Amf0.WriteObject(pb, opa)
+	}
+	return append([]byte(nil), pb.Bytes()[pre:]...)
 }
 
 func amfDriver(env *Env) error {
